@@ -107,6 +107,8 @@ pub struct DirCase {
     pub path: Vec<u8>,
     pub auto_gzip: bool,
     pub ae: Option<Vec<u8>>,
+    /// further request headers handed to FsDir::get (a Range, conditional headers): the lookup must not depend on them
+    pub extra: Vec<(&'static str, &'static str)>,
     pub class: String,
 }
 
@@ -116,6 +118,9 @@ pub fn run(rt: &tokio::runtime::Runtime, tree: &Tree, base_file: &std::fs::File,
     let mut hdrs = http::HeaderMap::new();
     if let Some(ae) = &c.ae {
         hdrs.insert(http::header::ACCEPT_ENCODING, http::HeaderValue::from_bytes(ae).unwrap());
+    }
+    for (k, v) in &c.extra {
+        hdrs.insert(http::header::HeaderName::from_static(k), http::HeaderValue::from_static(v));
     }
     let dir = http_serve::dir::FsDir::builder().auto_gzip(c.auto_gzip).for_path(&tree.base).unwrap();
     let res = rt.block_on(async {
@@ -190,7 +195,7 @@ pub fn gen_c19(rng: &mut Rng, thorough: bool, emit: &mut dyn FnMut(DirCase)) {
                     if !thorough && p.matches('/').count() >= 2 && !rng.chance(1, 3) {
                         continue;
                     }
-                    emit(DirCase { path: full.clone().into_bytes(), auto_gzip: auto, ae: ae.map(|s| s.as_bytes().to_vec()), class: format!("X:path {:?} auto_gzip={} ae={:?}", full, auto, ae) });
+                    emit(DirCase { path: full.clone().into_bytes(), auto_gzip: auto, ae: ae.map(|s| s.as_bytes().to_vec()), extra: vec![], class: format!("X:path {:?} auto_gzip={} ae={:?}", full, auto, ae) });
                 }
             }
         }
@@ -200,7 +205,7 @@ pub fn gen_c19(rng: &mut Rng, thorough: bool, emit: &mut dyn FnMut(DirCase)) {
         for i in 0..=p.len() {
             let mut b = p.as_bytes().to_vec();
             b.insert(i, 0);
-            emit(DirCase { path: b, auto_gzip: true, ae: Some(b"gzip".to_vec()), class: format!("X:nul@{} in {:?}", i, p) });
+            emit(DirCase { path: b, auto_gzip: true, ae: Some(b"gzip".to_vec()), extra: vec![], class: format!("X:nul@{} in {:?}", i, p) });
         }
     }
     // other names: .gz given explicitly, dots, long names
@@ -210,10 +215,18 @@ pub fn gen_c19(rng: &mut Rng, thorough: bool, emit: &mut dyn FnMut(DirCase)) {
     for p in named.iter().map(|s| s.as_str()) {
         for auto in [true, false] {
             for ae in &aes {
-                emit(DirCase { path: p.as_bytes().to_vec(), auto_gzip: auto, ae: ae.map(|s| s.as_bytes().to_vec()), class: format!("G:named {:?} auto_gzip={} ae={:?}", p, auto, ae) });
+                emit(DirCase { path: p.as_bytes().to_vec(), auto_gzip: auto, ae: ae.map(|s| s.as_bytes().to_vec()), extra: vec![], class: format!("G:named {:?} auto_gzip={} ae={:?}", p, auto, ae) });
+            }
+        }
+    }
+    // the same lookups for requests that carry other headers as well (a resumed download, a revalidation)
+    for p in ["a", "sub/a", "c.gz", "sub/b", "page", "nonexistent"] {
+        for extra in [vec![("range", "bytes=0-1")], vec![("range", "bytes=100-"), ("if-range", "\"x\"")], vec![("if-none-match", "\"x\""), ("if-modified-since", "Sun, 06 Nov 1994 08:49:37 GMT")]] {
+            for ae in [Some("gzip"), None] {
+                emit(DirCase { path: p.as_bytes().to_vec(), auto_gzip: true, ae: ae.map(|s| s.as_bytes().to_vec()), extra: extra.clone(), class: format!("G:other-headers {:?} ae={:?} {:?}", p, ae, extra) });
             }
         }
     }
     let long = "x".repeat(5000);
-    emit(DirCase { path: long.into_bytes(), auto_gzip: true, ae: Some(b"gzip".to_vec()), class: "N:long-name".into() });
+    emit(DirCase { path: long.into_bytes(), auto_gzip: true, ae: Some(b"gzip".to_vec()), extra: vec![], class: "N:long-name".into() });
 }
